@@ -1,0 +1,23 @@
+//go:build verif
+
+package packfile
+
+import (
+	"io"
+
+	"github.com/wrgl/wrgl/pkg/misc"
+)
+
+// VerifEncodeObjTypeAndLen exposes the packfile object header encoder to the
+// verification harness (verif build tag only).
+func VerifEncodeObjTypeAndLen(objType int, u uint64) []byte {
+	b := encodeObjTypeAndLen(misc.NewBuffer(nil), objType, u)
+	c := make([]byte, len(b))
+	copy(c, b)
+	return c
+}
+
+// VerifDecodeObjTypeAndLen exposes the packfile object header decoder.
+func VerifDecodeObjTypeAndLen(r io.Reader) (objType int, u uint64, err error) {
+	return decodeObjTypeAndLen(r)
+}
